@@ -39,6 +39,7 @@ type Backend struct {
 
 var (
 	_progPool sync.Pool
+	_archInit sync.Mutex
 )
 
 func newProg() *obj.Prog {
@@ -58,7 +59,11 @@ func newBackend(name string) (ret *Backend) {
 	ret = new(Backend)
 	ret.Arch = arch.Set(name)
 	ret.Ctxt = newLinkContext(ret.Arch.LinkArch)
+	/* the first Init fills package-level instruction tables of the assembler without any
+	 * synchronisation of its own, concurrent first users must not run it together */
+	_archInit.Lock()
 	ret.Arch.Init(ret.Ctxt)
+	_archInit.Unlock()
 	return
 }
 
